@@ -51,7 +51,11 @@ def drain_agen(agen, cap):
 def view(fr):
     if getattr(fr, 'frame_type', None) is None:
         return INVALID
-    return frames.from_repo(fr)
+    try:
+        return frames.from_repo(fr)
+    except AttributeError as e:
+        # a frame object whose fields were never filled in: the decoder handed out something it had not finished parsing
+        return {'type': 'HALF_PARSED', 'cls': type(fr).__name__, 'missing': str(e)[-60:]}
 
 
 @st.composite
@@ -204,6 +208,11 @@ def prop(case):
                         out.append(viol('undecodable_body_decoded', 'C04:undecodable_body_decoded:' + it['kind'],
                                         backend=var.name, body=b[:32].hex()))
                     iso = INVALID if iso == INVALID else None
+                if isinstance(iso, dict) and iso.get('type') == 'HALF_PARSED':
+                    # "an undecodable frame produces no frame (at most an invalid-frame marker)": an object whose fields were
+                    # never filled in is neither
+                    out.append(viol('undecodable_body_decoded', 'C04:half_parsed_frame:' + iso['cls'], backend=var.name,
+                                    body=b[:32].hex(), missing=iso['missing']))
                 if iso is not None:
                     expected.append(iso)
         results = {}
